@@ -34,6 +34,27 @@ type Engine struct {
 	Lemmas    []*Lemma
 
 	AllFuncs map[*ssa.Function]bool
+
+	globalStores map[*ssa.Global][]*ssa.Store
+}
+
+// GlobalStores lists every store to a package-level variable in the program (computed once).
+func (e *Engine) GlobalStores(g *ssa.Global) []*ssa.Store {
+	if e.globalStores == nil {
+		e.globalStores = map[*ssa.Global][]*ssa.Store{}
+		for fn := range e.AllFuncs {
+			for _, b := range fn.Blocks {
+				for _, ins := range b.Instrs {
+					if st, ok := ins.(*ssa.Store); ok {
+						if gg, ok := st.Addr.(*ssa.Global); ok {
+							e.globalStores[gg] = append(e.globalStores[gg], st)
+						}
+					}
+				}
+			}
+		}
+	}
+	return e.globalStores[g]
 }
 
 func Load(repo string) (*Engine, error) {
